@@ -50,6 +50,13 @@ class BusModel:
 
     def address_set(self, env, addr=ADDR):
         av = env.av(addr)
+        # conditions on single bytes of the address (`let [page, low] = addr.to_be_bytes()`, `low < 0xa0`) do not refine the
+        # interval of the address itself: take the exact minimum / maximum under the path condition when it is tighter
+        if any(isinstance(t_, tuple) and t_ and t_[0] == 'o' for _, t_, _ in getattr(env, 'log', ())):
+            from .invariants import _exact_bits
+            ex = _exact_bits(addr, env)
+            if ex is not None and (ex.lo > av.lo or ex.hi < av.hi):
+                return (max(av.lo, ex.lo), min(av.hi, ex.hi))
         return (av.lo, av.hi)
 
     def read_paths(self):
